@@ -122,6 +122,20 @@ Theorem C19_add_pointwise : forall t, add_ty t = true -> forall a b, vty t a -> 
   rt_add a b = pw_add t a b.
 Proof. exact add_pointwise. Qed.
 
+(* THE TYPING SIDE ("all pairs of them of equal type"): `admits o t` is the class of operand types typechecker.rs
+   admits for `a o b` (equ: every type; cmp: int, float, str and tuples of them; add: the same; sub mul div:
+   int, float and tuples of them -- a reviewed predicate, compared with the real checker's accept/reject by
+   tools/props/c19.py).  For every operator, every admitted type and every two values of that type the
+   operator returns a value of the result type; the only exclusion is `/` with a zero component in the divisor
+   (outside the number model), and even then it is never a run-time error. *)
+Theorem C19_bop_defined : forall o t a b, admits o t = true -> vty t a -> vty t b ->
+  rt_bop o a b <> Err /\
+  ((o <> BDiv \/ nonzero t b) -> exists r, rt_bop o a b = Ok r /\ vty (res_ty o t) r).
+Proof. exact bop_defined. Qed.
+
+Theorem C19_neg_closed : forall t, num_ty t = true -> forall a, vty t a -> exists r, rt_neg a = Ok r /\ vty t r.
+Proof. exact neg_closed. Qed.
+
 (* Non-vacuity: a nested type with an enum, a list and tuples has values, and the operators compute on them. *)
 Example C19_example_typed :
   vty (TTuple [TInt; TTuple [TStr; TFloat]; TList (TMaybe TInt)])
@@ -163,3 +177,5 @@ Print Assumptions C19_div_scalar.
 Print Assumptions C19_neg_pointwise.
 Print Assumptions C19_add_str_concat.
 Print Assumptions C19_add_pointwise.
+Print Assumptions C19_bop_defined.
+Print Assumptions C19_neg_closed.
